@@ -15,7 +15,7 @@ From Coq Require Import ZArith List Bool String Lia.
 From FV Require Import Model.PegSyntax Model.Peg Model.PegWf Model.ParserStrings Model.ParserAst Model.ParserActions
      Model.Parser Model.ParserFiles Gen.Grammar Proofs.PegProofs Proofs.ParserProofs Proofs.ParserLexProofs
      Proofs.ParserEvals Proofs.ParserRoundTrip Proofs.ParserRoundTripEnum Proofs.ParserPrefixProofs
-     Proofs.ParserRoundTripStruct Proofs.ParserRoundTripConst Proofs.ParserRoundTripFile.
+     Proofs.ParserRoundTripStruct Proofs.ParserRoundTripConst Proofs.ParserRoundTripFile Proofs.ParserFragmentCheck.
 Import ListNotations.
 Open Scope Z_scope.
 
@@ -214,6 +214,14 @@ Theorem c10_roundtrip_structs_partial : forall (w0 : bytes) (ds : list xdecl),
   parse_idl (w0 ++ render_file ds) = POk (frugal_of ds).
 Proof. exact roundtrip_file. Qed.
 Print Assumptions c10_roundtrip_structs_partial.
+
+(** the hypotheses of the theorem are decidable: a computable check implies them.  Judge/JParserFragment.v
+    runs this check on every generated description of a file of the fragment and compares the tree
+    [frugal_of ds] with what the REAL parser returned on [w0 ++ render_file ds] *)
+Theorem c10_fragment_check_sound : forall (w0 : bytes) (ds : list xdecl),
+  fragment_okb w0 ds = true -> parse_idl (w0 ++ render_file ds) = POk (frugal_of ds).
+Proof. exact fragment_check_sound. Qed.
+Print Assumptions c10_fragment_check_sound.
 
 (** constant values alone, at the level of the generated rule ConstValue: the decimal spelling of any
     64-bit integer followed by something that is neither a digit nor '.', and any plain double-quoted
